@@ -128,3 +128,14 @@ Print Assumptions C03_bounds_of_last.
 Print Assumptions C03_bounds_last_wins.
 Print Assumptions C03_range_last_wins.
 Print Assumptions C03_example.
+
+(* ---------- composition with the builder and codec theorems ---------- *)
+Require Import FstV.Builder FstV.Fst FstV.CodecSpec FstV.proofs.Closed FstV.proofs.StreamProofs FstV.proofs.ReaderProofs.
+
+(* end to end: on the bytes a builder writes for ANY key list, values, type and cache geometry *)
+Theorem C03_on_built_maps : forall summer ty rows cols kvs,
+  input_ok kvs -> ty < U64 -> (forall l, summer l < 4294967296) ->
+  exists bs, build_map summer ty rows cols kvs = Ok bs /\
+    forall cs, calls_bytes cs -> api_range bs cs = Ok (spec_range kvs cs).
+Proof. exact C03_closed. Qed.
+Print Assumptions C03_on_built_maps.
